@@ -45,6 +45,19 @@ impl H {
             H::D(r) => r.borrow().read(),
         }
     }
+    /// run `f` on the target while a shared borrow through this handle is alive
+    fn with_borrow<R>(&self, f: impl FnOnce(&dyn Cellish) -> R) -> R {
+        match self {
+            H::C(r) => {
+                let g = r.borrow();
+                f(&*g)
+            }
+            H::D(r) => {
+                let g = r.borrow();
+                f(&*g)
+            }
+        }
+    }
     fn write(&self, v: i64) {
         match self {
             H::C(r) => r.borrow_mut().write(v),
@@ -147,6 +160,23 @@ pub fn execute(plan: &Plan, ctx: &mut Ctx) {
                         None
                     }
                 }
+                // RR h k: two shared borrows alive at once in this thread, through handle h and handle k
+                // (for the Mutex-backed variants, where that cannot work, a plain read)
+                "RR" => {
+                    let h2 = live[(op.arg(1).rem_euclid(live.len() as i64)) as usize];
+                    let (a, b) = if matches!(variant, 3 | 5) {
+                        let x = handles[h].as_ref().unwrap().read();
+                        (x, x)
+                    } else {
+                        let (ha, hb) = (handles[h].as_ref().unwrap(), handles[h2].as_ref().unwrap());
+                        ha.with_borrow(|x| hb.with_borrow(|y| (x.read(), y.read())))
+                    };
+                    if a != cell || b != cell {
+                        Some(format!("two simultaneous shared borrows (handles {} and {}) saw {} and {}, the last write was {}", h, h2, a, b, cell))
+                    } else {
+                        None
+                    }
+                }
                 "WR" => {
                     handles[h].as_ref().unwrap().write(op.arg(1));
                     cell = op.arg(1);
@@ -241,7 +271,14 @@ pub fn generate(prop: &str, tier: Tier, rng: &mut Rng, seed: u64, run: u64) -> P
             0 | 1 => plan.push("CL", &[h]),
             2 => plan.push("DR", &[h]),
             3 | 4 => plan.push("DY", &[h]),
-            5 | 6 => plan.push("RD", &[h]),
+            5 => plan.push("RD", &[h]),
+            6 => {
+                if rng.chance(0.5) {
+                    plan.push("RR", &[h, rng.below(8) as i64]);
+                } else {
+                    plan.push("RD", &[h]);
+                }
+            }
             _ => plan.push("WR", &[h, uniq]),
         }
     }
